@@ -10,6 +10,7 @@ import traceback
 
 from vf import sqlgen, sqlmut
 
+SUPPORTS_REPLAY = True
 SHARDS = {'quick': 16, 'thorough': 64}
 TIMEOUT = {'quick': 1500, 'thorough': 7200}
 MUST_HIT = ['Classify.input-accepted', 'Classify.input-rejected', 'Classify.build-ok',
